@@ -301,6 +301,47 @@ Proof. exact vt_emit_parse. Qed.
 Theorem c04_value_types_parse_injective : forall (x y : xvalty) (v : valty), gen_vt_parse x = Some v -> gen_vt_parse y = Some v -> x = y.
 Proof. exact vt_parse_injective. Qed.
 
+
+(* ================================================================== THE WHOLE MODULE AS BYTES (Model/ModBytes.v, Proofs/ModBytes.v): the binary format of
+   every section kind on top of LEB128 (Model/Leb.v), the framing (Model/Frame.v) and the bytes of bodies (Model/Bytes.v).  The section stream the module
+   model starts from is what the model's own reader gives on the bytes (compared on every input by Run/ModBytesRun.v), and walrus's output bytes are what
+   the model's writer gives on the emitted stream *)
+From WV Require Import Model.Leb Model.Frame Model.Bytes Model.ModBytes Proofs.ModBytes.
+Section ModuleBytes.
+Local Open Scope N_scope.
+(* every well-formed section stream has bytes, and reading them gives the stream back: without operator positions literally, with positions up to
+   the positions the writer's byte lengths imply *)
+Theorem c04_module_bytes_round_trip :
+  forall w : wmod, wf_wmod w = true ->
+    exists bs : list N, enc_wmod w = Some bs /\ dec_wmod false bs = Some (zero_wmod w) /\
+      (exists w' : wmod, place_wmod true w = Some w' /\ dec_wmod true bs = Some w' /\ zero_wmod w' = zero_wmod w).
+Proof. exact wf_wmod_round_trip. Qed.
+Theorem c04_section_bytes_round_trip :
+  forall (wp : bool) (pos : N) (s : wsec) (id : N) (p : list N),
+    enc_sec s = Some (id, p) -> wf_sec s = true -> exists s' : wsec, place_sec wp pos s = Some s' /\ dec_sec wp pos id p = Some s'.
+Proof. exact dec_enc_sec. Qed.
+(* the writer is injective up to operator positions: two streams with the same bytes are the same module *)
+Theorem c04_module_bytes_determine_the_stream :
+  forall (w1 w2 : wmod) (bs : list N), enc_wmod w1 = Some bs -> enc_wmod w2 = Some bs -> wf_wmod w1 = true -> wf_wmod w2 = true -> zero_wmod w1 = zero_wmod w2.
+Proof. exact enc_wmod_inj. Qed.
+(* what emitM produces has bytes (the premise is about constants and operators only: no unmodelled constant expression, no foreign heap type) and they read back *)
+Theorem c04_emitted_stream_has_bytes :
+  forall (m : wir) (ilen : wins -> N) (e : emitted), emitM m ilen nil = Ok e -> forallb consts_ops_ok (em_secs e) = true -> exists bs : list N, enc_wmod (em_secs e) = Some bs.
+Proof. exact emitted_bytes. Qed.
+Theorem c04_emitted_bytes_read_back :
+  forall (m : wir) (ilen : wins -> N) (e : emitted), emitM m ilen nil = Ok e -> wf_wmod (em_secs e) = true ->
+    exists bs : list N, enc_wmod (em_secs e) = Some bs /\ dec_wmod false bs = Some (zero_wmod (em_secs e)) /\
+      (exists w' : wmod, place_wmod true (em_secs e) = Some w' /\ dec_wmod true bs = Some w' /\ zero_wmod w' = zero_wmod (em_secs e)).
+Proof. exact emitted_bytes_read_back. Qed.
+(* the canonical-form premise on element segments is needed *)
+Theorem c04_noncanonical_element_segment_does_not_round_trip :
+  wf_wmod noncanonical = false /\ (exists (bs : list N) (w' : wmod), enc_wmod noncanonical = Some bs /\ dec_wmod false bs = Some w' /\ w' <> noncanonical).
+Proof. exact noncanonical_refuted. Qed.
+(* non-vacuity: a module with one of everything, on wasm-encoder's own bytes *)
+Example c04_module_with_one_of_everything_reads_back : dec_wmod false everything_bytes = Some everything.
+Proof. exact everything_by_theorem. Qed.
+End ModuleBytes.
+
 Print Assumptions c04_attr_table_local.
 Print Assumptions c04_attr_table_import.
 Print Assumptions c04_attr_memory_local.
@@ -336,3 +377,10 @@ Print Assumptions c04_function_signatures_unconditional.
 Print Assumptions c04_function_renumbering_bijective.
 Print Assumptions c04_value_types_roundtrip.
 Print Assumptions c04_value_types_parse_injective.
+Print Assumptions c04_module_bytes_round_trip.
+Print Assumptions c04_section_bytes_round_trip.
+Print Assumptions c04_module_bytes_determine_the_stream.
+Print Assumptions c04_emitted_stream_has_bytes.
+Print Assumptions c04_emitted_bytes_read_back.
+Print Assumptions c04_noncanonical_element_segment_does_not_round_trip.
+Print Assumptions c04_module_with_one_of_everything_reads_back.
